@@ -3473,9 +3473,10 @@ class Frame(ContainerOperand):
                     fill_value=fill_value
                     ).values
             # produce a Boolean array that shows True only for labels (index, columns) found in the original `value` argument (before reindexing) and also in the target; this will be used to not set a NA when the value to fill was produced by reindexing.
+            # NOTE: hierarchical labels are compared as the tuples iteration gives (2D values hold coerced elements)
             fill_valid = self._blocks.extract_iloc_mask((
-                    self.index.isin(value.index.values),
-                    self.columns.isin(value.columns.values)
+                    self.index.isin(value.index.values if self._index.depth == 1 else value.index),
+                    self.columns.isin(value.columns.values if self._columns.depth == 1 else value.columns)
                     )).values
         else:
             fill = value
